@@ -41,6 +41,7 @@ def _wrap(x):
             return x
         flat = x.ravel().tolist()
         arr = _conc_array(x.shape, flat, k)
+        arr.np_ref = x
         if k == "f" and np.isnan(x).any():
             nanflat = np.isnan(x).ravel().tolist()
             shape = x.shape
@@ -73,6 +74,18 @@ def _conc_array(shape, flat, kind):
     a = new_array(shape, fn, kind, owner="concrete")
     a.concrete_data = (shape, flat)
     return a
+
+
+def aliases(x, y):
+    """Do two arrays share storage?  symbolic: same Storage; concrete: numpy memory overlap."""
+    if x is None or y is None:
+        return False
+    rx, ry = getattr(x, "np_ref", None), getattr(y, "np_ref", None)
+    if rx is not None and ry is not None:
+        return bool(np.shares_memory(rx, ry))
+    if isinstance(x, SymArr) and isinstance(y, SymArr):
+        return x.storage is y.storage
+    return False
 
 
 def unwrap(x):
